@@ -842,6 +842,16 @@ def bits_case(rep):
                         if grid:
                             ok = ok and all(np.array_equal(a, b) for a, b in zip(reader.header['coords'], coords)) and reader.nVar == nVar
                         rep.side(f'bits/{np.dtype(dt).name}/nVar{nVar}/grid{grid}', ok)
+                        # any interleaving of reads: the results of earlier reads are still the bits of THEIR index after later reads on the same handle
+                        for order in ((0, 1, 2), (2, 0, 1), (1, 1, 0, 2, 0)):
+                            held = [(j, reader.readField(j)) for j in order]
+                            okh = all(t2 == recs[j][0] and u2.tobytes() == recs[j][1].tobytes() for j, (t2, u2) in held)
+                            if not okh:
+                                rep.side(f'bits/{np.dtype(dt).name}/nVar{nVar}/grid{grid}/results-of-earlier-reads-kept/order{order}', False,
+                                         [(j, u2.tobytes() == recs[j][1].tobytes()) for j, (t2, u2) in held])
+                                break
+                        else:
+                            rep.side(f'bits/{np.dtype(dt).name}/nVar{nVar}/grid{grid}/results-of-earlier-reads-kept', True)
                       except Exception as e:
                         rep.side(f'bits/{np.dtype(dt).name}/nVar{nVar}/grid{grid}', False, f'{type(e).__name__}: {e}')
                     rep.translator += 1
